@@ -136,13 +136,13 @@ def check_C17(ctx):
         meta_many(ctx, 2, [4, 8])
     else:
         meta_mc(ctx, "SpecF", consts(4, [4], [1], 2, 1), MC_INVS, "free-t1")
-        meta_mc(ctx, "SpecF", consts(3, [3], [1], 3, 2), MC_INVS, "free-t2")
+        meta_mc(ctx, "SpecF", consts(3, [3], [1], 2, 2), MC_INVS, "free-t2")
         r = meta_mc(ctx, "SpecD", consts(4, [4], [1], 6, 1, hist=True, maxreg=4), MC_INVS, "directed-t", emit="EmitD")
         meta_s2i(ctx, r["replay"], 4, [4], "directed-t", p_keep=0.005, keep=400)
         r = meta_mc(ctx, "SpecD", consts(4, [1, 3], [2], 6, 1, hist=True, maxreg=3), MC_INVS, "directed-t2", emit="EmitD")
         meta_s2i(ctx, r["replay"], 4, [1, 3], "directed-t2")
         r = meta_mc(ctx, "SpecF", consts(5, [2, 5], [1, 2], 5, 3, hist=True, h=80), MC_INVS, "sim-t", emit="Emit",
-                    simulate=("num=500", 81))
+                    simulate=("num=250", 81))
         meta_s2i(ctx, r["replay"], 5, [2, 5], "sim-t", p_keep=0.05, keep=100, dedupe=True)
         meta_i2s(ctx, 300, 400, 8, [7, 8])
         meta_i2s(ctx, 60, 400, 8, [1, 4, 6], seed_off=1)
